@@ -773,6 +773,9 @@ class LifeRun(Base):
             outcome = "failed:" + type(exc.reason).__name__
         except SimCrash:
             outcome = "crash"
+        except Exception as exc:  # noqa: however a failure is reported, it is a failed upgrade
+            outcome = "failed:" + type(exc).__name__
+            stats.probe("upgrade_failure_not_wrapped")
         served = None
         if 0 in self.net.served and 1 in self.net.served:
             try:
